@@ -2070,6 +2070,14 @@ def data_scale_cases(ctx, rng):
             if rng.random() < 0.4:
                 agg.insert(0, ['categories', A(rng.choice(['b', 'c', 's']))])
             yield {'kind': 'call', 'fn': 'dataAggregate', 'args': [rows, O(*agg)]}, 'aggregate:' + func
+    # directed: one category, n rows whose measure values sit at the TOP of the range (odd and even, so that partial sums pass 2**53 with an
+    # odd value - R4C12-m1: `sum(values) / len(values)` instead of statistics.mean differs between the int and the float spelling there)
+    top = [999999999999999, 999999999999998, 999999999999997, 900000000000001, 562949953421313]
+    for func in ('average', 'count', 'max', 'min', 'stddev', 'sum'):
+        for n in (2, 3, 9, 11, 16, 17, 33):
+            for start in (0, 1):
+                rows = A(*[O(a=N(top[(start + i) % len(top)]), s='k') for i in range(n)])
+                yield {'kind': 'call', 'fn': 'dataAggregate', 'args': [rows, O(['measures', A(O(field='a', function=func))])]}, 'aggregate-top:' + func
     for fname in ('dataSort', 'dataJoin', 'dataTop', 'dataValidate'):
         for _ in range(ctx.scale(40, 800)):
             yield {'kind': 'call', 'fn': fname, 'args': tame(fname, sp_data(rng, fname, big=rng.choice([('a',), ('a', 'b')])))}, fname
